@@ -233,18 +233,18 @@ def shards(tier):
         for first in KINDS:
             if first in ('advance', 'PUBCOMP') and not T:
                 continue
-            out.append(('persist', {'profile': profile, 'rounds': 1, 'k': 4 if T else 3, 'first': first, 'newwindow': 0, 'early': 1, 'late': 0,
+            out.append(('persist', {'profile': profile, 'rounds': 1, 'k': 3, 'first': first, 'newwindow': 0, 'early': 1, 'late': 0,
                                     'broker': 'ack-all', 'lost_before_connack': True}))
-            out.append(('persist', {'profile': profile, 'rounds': 1, 'k': 4 if T else 3, 'first': first, 'newwindow': 0, 'early': 1, 'late': 0,
+            out.append(('persist', {'profile': profile, 'rounds': 1, 'k': 3, 'first': first, 'newwindow': 0, 'early': 1, 'late': 0,
                                     'broker': 'ack-all', 'qos0': True}))
         for first in ('publish', 'PUBACK'):
             for nw in (0, 1):
-                out.append(('persist', {'profile': profile, 'rounds': 1, 'k': 4 if T else 3, 'first': first, 'newwindow': nw, 'early': 0, 'late': 0,
+                out.append(('persist', {'profile': profile, 'rounds': 1, 'k': 3, 'first': first, 'newwindow': nw, 'early': 0, 'late': 0,
                                         'broker': 'ack-all', 'near_wrap': True}))
         for early in (0, 1):
             for early2 in (0, 1):
                 for first in ('publish', 'PUBREC', 'LOSS'):
-                    out.append(('persist', {'profile': profile, 'rounds': 2, 'k': 2 if not T else 3, 'first': first, 'newwindow': 0, 'early': early, 'late': 0,
+                    out.append(('persist', {'profile': profile, 'rounds': 2, 'k': 2, 'first': first, 'newwindow': 0, 'early': early, 'late': 0,
                                             'newwindow2': 0, 'early2': early2, 'late2': 0, 'broker': 'ack-all'}))
     return out
 
@@ -253,7 +253,7 @@ META = {
     'rule': 'persistent-session client, window symbolic; per round up to k free steps from {publish(QoS symbolic 1..2), PUBACK/PUBREC/PUBCOMP with symbolic identifier, '
             'advance(dt symbolic)} cut by a loss at any point; then a rebuilt protocol (optionally setWindowSize(symbolic)), connect(cleanStart symbolic), 0..1 publish before '
             'CONNACK, CONNACK(session byte symbolic), 0..1 publish after; finally a broker that acknowledges everything twice, or stays silent, and 1000 s',
-    'bounds': {'quick': 'one round with k<=3, two rounds with k<=2; variants: the rebuilt connection is lost before its CONNACK; publishes of QoS 0..2; identifier counter placed at 65531..65535 (symbolic)', 'thorough': 'one round with k<=3 in every option combination (silent broker included), variants with k<=4, two rounds with k<=3 from every first step'},
+    'bounds': {'quick': 'one round with k<=3, two rounds with k<=2; variants: the rebuilt connection is lost before its CONNACK; publishes of QoS 0..2; identifier counter placed at 65531..65535 (symbolic)', 'thorough': 'as quick, plus the silent-broker variant of every option combination and the near-wrap / lost-before-CONNACK / QoS 0 variants from every first step (a deeper first thorough sizing, k<=4, did not finish in 45 minutes)'},
     'stubs': ['fake transport with asynchronous loss', 'twisted task.Clock', 'jitter: fixed sequence'],
     'outside': ['more than two losses in a row', 'subscribe/unsubscribe across the loss (C07)'],
     'assumptions': ['acknowledgement types fit the exchange they may address'],
